@@ -617,12 +617,57 @@ func concurrentDecodeStage(o *out, corpus [][]byte) {
 		}
 		return fmt.Sprint(serDecoded(m))
 	}
-	for i, d := range corpus {
-		seq[i] = one(d)
-	}
 	var wg sync.WaitGroup
 	var mu sync.Mutex
 	bad := -1
+	// first, inputs nothing has decoded yet in this process (any first-use state in the library is still
+	// cold): every goroutine walks the same list of datagrams whose single attribute has a type no other
+	// input used and a value that overruns the body, a method / class combination not seen before, or a
+	// cookie not seen before; the results are then compared with a sequential pass
+	fr := newRng(77)
+	var fresh [][]byte
+	for k := 0; k < 3000; k++ {
+		t := 0x0100 + fr.intn(0xfe00)
+		d := make([]byte, 28)
+		d[0], d[1] = byte(fr.intn(0x40)), byte(fr.intn(256))
+		d[3] = 8
+		copy(d[4:], []byte{0x21, 0x12, 0xa4, 0x42})
+		copy(d[8:20], fr.bytes(12))
+		d[20], d[21] = byte(t>>8), byte(t)
+		d[22], d[23] = byte(fr.intn(2)), byte(5+fr.intn(250))
+		if k%5 == 0 {
+			d[22], d[23] = 0, 4 // fits: decodes
+		}
+		if k%7 == 0 {
+			copy(d[4:8], fr.bytes(4))
+		}
+		fresh = append(fresh, d)
+	}
+	got := make([][]string, 8)
+	for w := 0; w < 8; w++ {
+		wg.Add(1)
+		got[w] = make([]string, len(fresh))
+		go func(w int) {
+			defer wg.Done()
+			for i, d := range fresh {
+				got[w][i] = one(d)
+			}
+		}(w)
+	}
+	wg.Wait()
+	for i, d := range fresh {
+		want := one(d)
+		for w := 0; w < 8; w++ {
+			if got[w][i] != want && bad < 0 {
+				bad = i
+				o.failFor("C01", "concurrent-decode-differs", "101 "+fHex(d)+" - 0,0")
+			}
+		}
+	}
+	bad = -1
+	for i, d := range corpus {
+		seq[i] = one(d)
+	}
 	for w := 0; w < 8; w++ {
 		wg.Add(1)
 		go func(w int) {
@@ -642,7 +687,7 @@ func concurrentDecodeStage(o *out, corpus [][]byte) {
 	if bad >= 0 {
 		o.failFor("C01", "concurrent-decode-differs", "101 "+fHex(corpus[bad])+" - 0,0")
 	}
-	o.countN("concurrent-decodes", 3*8*len(corpus)/2)
+	o.countN("concurrent-decodes", 3*8*len(corpus)/2+8*len(fresh))
 }
 
 func sizeBucket(n int) int {
